@@ -67,11 +67,13 @@ def handle : List String → String
   | "checklist" :: evs =>
       match evs.mapM parseCEv with
       | some es =>
-          -- after every event: is the port still read?
-          let (_, trace) := es.foldl (fun (acc : CSt × List String) e =>
-            let s' := cstep acc.1 e
-            (s', acc.2 ++ [if s'.reading then "r" else "x"])) (({} : CSt), [])
-          if trace.isEmpty then "-" else "".intercalate trace
+          -- after every event: is the port still read?  then the output port log and the termination status
+          let (fin, trace) := es.foldl (fun (acc : LCSt × List String) e =>
+            let s' := lcstep acc.1 e
+            (s', acc.2 ++ [if s'.c.reading then "r" else "x"])) (({} : LCSt), [])
+          (if trace.isEmpty then "-" else "".intercalate trace) ++ "|out=" ++
+            (if fin.out.isEmpty then "-" else ",".intercalate (fin.out.map renderTag)) ++ "|term=" ++
+            (match fin.terminated with | some st => st.render | none => "-")
       | none => "bad-op"
   | _ => "bad-op"
 
